@@ -266,7 +266,7 @@ func (d *D) Base(idx int, ctx *core.Ctx) *core.Scenario {
 		sc.Sealed["choices"] = fmt.Sprint(n)
 		sc.Sealed["matching"] = fmt.Sprint(r.Intn(1 << n)) // which choices output the question's output
 		sc.Sealed["multi"] = []string{"0", "1"}[r.Intn(2)]
-		sc.Sealed["form"] = fmt.Sprint(r.Intn(7)) // 0-1 inline text, 2-3 evy code blocks, 4-6 picture questions with linked programs
+		sc.Sealed["form"] = fmt.Sprint(r.Intn(8)) // 0-1 inline text, 2-3 evy code blocks, 4-7 picture questions with linked programs (7: a picture with text)
 		sc.Sealed["sealed_fm"] = []string{"0", "1"}[r.Intn(2)]
 	}
 	sc.Sealed["public_key"] = k.Public
@@ -737,6 +737,22 @@ func (d *D) svgQuestion(answerLine string, multi bool, n, matching, variant int)
 		picture + "move 1 1\ncircle 1\n",   // one shape too many
 		"width 3\n" + picture,              // slightly different
 		picture + "exit 3\n",
+	}
+	if variant%4 == 3 {
+		// a picture with text: near misses are texts with characters that mean something in the
+		// picture's own notation, and texts that spell out what the other picture contains
+		picture = "move 10 50\ntext \"a\"\nmove 30 50\ntext \"b\"\n"
+		same = []string{picture, "// same\n" + picture, "s := \"a\"\nmove 10 50\ntext s\nmove 30 50\ntext \"b\"\n"}
+		wrong = []string{
+			"move 10 50\ntext \"a</text><text x=\\\"300\\\" y=\\\"500\\\">b\"\n",
+			"move 10 50\ntext \"a\"\nmove 30 50\ntext \"b \"\n",
+			"move 10 50\ntext \"a&amp;\"\nmove 30 50\ntext \"b\"\n",
+			"move 10 50\ntext \"a\"\nmove 30 50\ntext \"<b>\"\n",
+			"move 10 50\ntext \"ab\"\n",
+			"move 10 50\ntext \"a\"\nmove 30 50\ntext \"B\"\n",
+			"move 10 50\ntext \"a\"\nmove 30 50\ntext \"b\"\ntext \"\"\n",
+			"move 10 50\ntext \"a\\\"\"\nmove 30 50\ntext \"b\"\n",
+		}
 	}
 	os.WriteFile(filepath.Join(abs, "q.evy"), []byte(picture), 0o644) //nolint:errcheck
 	at := "single-choice"
